@@ -262,7 +262,8 @@ def specInteger (v : Bytes) : TExp :=
   let inRange (o : Option Nat) : TExp := match o with
     | some n => if n < 2147483648 then .value n else .any
     | none => .any
-  if v.any fun c => !((hexVal1 c).isSome || c == 120 || c == 88 || c == 43 || c == 45 || Bytes.isSpace c) then .reject
+  if (v.any fun c => !((hexVal1 c).isSome || c == 120 || c == 88 || c == 43 || c == 45 || Bytes.isSpace c)) ||
+     (!v.isEmpty && !v.any isDigitB) then .reject
   else match v with
     | [48] => .value 0
     | 48 :: 120 :: h :: rest => inRange (baseVal 16 (h :: rest) 0)
